@@ -1,3 +1,588 @@
-use crate::ctx::Ctx;
-pub fn run_c11(_ctx: &mut Ctx) { unimplemented!() }
-pub fn run_c12(_ctx: &mut Ctx) { unimplemented!() }
+//! C11 (a panic in caller-supplied code leaves a valid array) and C12 (leaking a drain, iterator or
+//! view leaves a valid array): crash-point / leak-point enumeration.
+use crate::ctx::*;
+use crate::elem::*;
+use crate::model::shapes;
+use crate::monitor::*;
+use crate::ops::*;
+use crate::wl_insrem::Axis;
+use crate::wl_serde::shape_ok;
+use std::collections::{HashSet, VecDeque};
+use toodee::*;
+
+fn nsel(ctx: &Ctx, miri_q: usize, miri_t: usize, vg: usize, quick: usize, thorough: usize) -> usize {
+    match (ctx.scale, ctx.tier) {
+        (Scale::Miri, Tier::Quick) => miri_q,
+        (Scale::Miri, Tier::Thorough) => miri_t,
+        (Scale::Vg, _) => vg,
+        (Scale::Native, Tier::Quick) => quick,
+        (Scale::Native, Tier::Thorough) => thorough,
+    }
+}
+
+/// catch_unwind around the operation under test; afterwards fault injection is paused so that values
+/// owned by the harness can be dropped without becoming crash points.
+fn guarded<R>(f: impl FnOnce() -> R) -> Result<R, String> {
+    let r = catches(f);
+    fault_pause();
+    r
+}
+
+fn key_of(c: usize, r: usize) -> u32 {
+    ((c * 7 + r * 3) % 3) as u32
+}
+
+/// Validity of a survivor: shape invariant + every reachable element live, distinct, not held.
+fn validate<T: Elem>(ctx: &mut Ctx, opn: &str, what: &str, a: &TooDee<T>, held: &HashSet<u64>) -> bool {
+    if let Err(e) = shape_ok(a) {
+        ctx.violation(opn, "survivor:shape", format!("{}: {}", what, e));
+        return false;
+    }
+    check_tokens(ctx, opn, a, held) & check_double_drops(ctx, opn)
+}
+
+/// Keep using the survivor: read, push a row, remove a column, sort, clone, then drop it.
+/// Any panic or ledger complaint here is a violation ("...then or later").
+fn exercise<T: Elem + Clone + Ord>(ctx: &mut Ctx, opn: &str, what: &str, mut a: TooDee<T>) {
+    fault_disarm();
+    let r = guarded(|| {
+        let mut sum = 0u64;
+        for c in a.cells() {
+            sum = sum.wrapping_add(c.uid());
+        }
+        for r in 0..a.num_rows() {
+            for c in 0..a.num_cols() {
+                sum = sum.wrapping_add(a[(c, r)].key() as u64);
+            }
+        }
+        let nc = a.num_cols();
+        let items: Vec<T> = (0..if nc == 0 { 2 } else { nc }).map(|_| T::fresh(7)).collect();
+        a.push_row(items);
+        let nr = a.num_rows();
+        a.insert_col(0, (0..nr).map(|_| T::fresh(8)).collect::<Vec<_>>());
+        {
+            let mut d = a.remove_col(a.num_cols() - 1);
+            let _first = d.next();
+        }
+        a.sort_by_row(0, |x, y| x.key().cmp(&y.key()));
+        a.sort_by_col(0, |x, y| y.key().cmp(&x.key()));
+        let b = a.clone();
+        drop(b);
+        {
+            let _d = a.remove_row(0);
+        }
+        a.swap_dimensions();
+        sum
+    });
+    ctx.count("survivor_followups", 1);
+    match r {
+        Err(m) => {
+            ctx.violation(opn, "survivor:followup-panicked", format!("{}: later use panicked: {}", what, m));
+        }
+        Ok(_) => {
+            validate(ctx, opn, what, &a, &HashSet::new());
+        }
+    }
+    let r = guarded(move || drop(a));
+    if let Err(m) = r {
+        ctx.violation(opn, "survivor:drop-panicked", format!("{}: {}", what, m));
+    }
+    check_double_drops(ctx, opn);
+}
+
+// ================================================================================================
+// C11
+
+/// An operation under fault injection: `run` performs it on a fresh array and returns the survivor
+/// (None if the operation consumes / does not produce an array) plus ids the caller holds.
+struct FaultOp<'a> {
+    opn: &'static str,
+    desc: String,
+    run: &'a dyn Fn(&mut Ctx) -> (Option<TooDee<Tok>>, Vec<Tok>),
+    kinds: &'a [Kind],
+}
+
+/// Enumerate crash points of one operation: fault-free run to count calls, then every (kind, k).
+fn enumerate_faults(ctx: &mut Ctx, fo: &FaultOp<'_>) {
+    // fault-free run
+    ledger_reset();
+    fault_reset();
+    let (surv, held) = (fo.run)(ctx);
+    let counts: Vec<u64> = fo.kinds.iter().map(|k| fault_calls(*k)).collect();
+    let held_ids: HashSet<u64> = held.iter().map(|t| t.uid()).collect();
+    if let Some(a) = surv {
+        let what = format!("{} (fault-free)", fo.desc);
+        if validate(ctx, fo.opn, &what, &a, &held_ids) {
+            drop(held);
+            exercise(ctx, fo.opn, &what, a);
+        }
+    } else {
+        drop(held);
+    }
+    check_double_drops(ctx, fo.opn);
+    ctx.count("calls", 1);
+    for (ki, kind) in fo.kinds.iter().enumerate() {
+        for k in 0..counts[ki] {
+            ledger_reset();
+            fault_reset();
+            fault_arm(*kind, k);
+            let (surv, held) = (fo.run)(ctx);
+            let fired = fault_fired();
+            fault_disarm();
+            ctx.count("calls", 1);
+            let what = format!("{} with {:?}#{} panicking", fo.desc, kind, k);
+            if fired {
+                ctx.count("panics_injected", 1);
+                ctx.seen("crash_points", (fo.opn, &fo.desc, *kind, k));
+            } else {
+                ctx.count("faults_not_reached", 1);
+            }
+            let held_ids: HashSet<u64> = held.iter().map(|t| t.uid()).collect();
+            for h in &held {
+                if !is_live(h.uid()) {
+                    ctx.violation(fo.opn, "ledger:held-not-live", format!("{}: id {}", what, h.uid()));
+                }
+            }
+            match surv {
+                Some(a) => {
+                    if validate(ctx, fo.opn, &what, &a, &held_ids) {
+                        drop(held);
+                        exercise(ctx, fo.opn, &what, a);
+                        if fired {
+                            ctx.nontrivial((fo.opn, &fo.desc, *kind, k));
+                        }
+                    } else {
+                        // do not touch a broken array any further; leak it
+                        std::mem::forget(a);
+                    }
+                }
+                None => {
+                    drop(held);
+                    if check_double_drops(ctx, fo.opn) && fired {
+                        ctx.nontrivial((fo.opn, &fo.desc, *kind, k));
+                    }
+                }
+            }
+            check_double_drops(ctx, fo.opn);
+        }
+    }
+    ledger_counts(ctx);
+}
+
+fn toks(n: usize, key: u32) -> Vec<Tok> {
+    (0..n).map(|i| Tok::fresh(key + (i % 3) as u32)).collect()
+}
+
+fn insert_with(a: &mut TooDee<Tok>, axis: Axis, push: bool, idx: usize, it: Sup<Tok>) {
+    match (axis, push) {
+        (Axis::Row, false) => a.insert_row(idx, it),
+        (Axis::Row, true) => a.push_row(it),
+        (Axis::Col, false) => a.insert_col(idx, it),
+        (Axis::Col, true) => a.push_col(it),
+    }
+}
+
+fn c11_insert(ctx: &mut Ctx, shape: (usize, usize), axis: Axis) {
+    let (c, r) = shape;
+    let dim = if axis == Axis::Row { r } else { c };
+    let line = if axis == Axis::Row { c } else { r };
+    let lens: Vec<usize> = if c == 0 { vec![0, 1, 3] } else { vec![line] };
+    let kinds = [Kind::IntoIter, Kind::Len, Kind::Next, Kind::NextBack, Kind::IterDrop];
+    for idx in 0..=dim {
+        for push in [false, true] {
+            if push && idx != dim {
+                continue;
+            }
+            for &len in &lens {
+                // honest iterator, k-th callback panics
+                let run = |_ctx: &mut Ctx| {
+                    let (mut a, _g) = build::<Tok>(c, r, &key_of);
+                    a.reserve(if (idx + len) % 2 == 0 { 0 } else { len });
+                    let items = toks(len, 30);
+                    let _ = guarded(|| insert_with(&mut a, axis, push, idx, Sup(SupIter::new(items, LenLie::Honest, true))));
+                    (Some(a), vec![])
+                };
+                let opn = match (axis, push) {
+                    (Axis::Row, false) => "insert_row",
+                    (Axis::Row, true) => "push_row",
+                    (Axis::Col, false) => "insert_col",
+                    (Axis::Col, true) => "push_col",
+                };
+                enumerate_faults(ctx, &FaultOp { opn, desc: format!("{}(idx={}, len={}) on {}x{}", opn, idx, len, c, r), run: &run, kinds: &kinds });
+                // lying iterators (no injected panic needed; combined with injected ones as well)
+                for lie in [LenLie::Plus(1), LenLie::Plus(3), LenLie::Minus(1), LenLie::Fixed(0), LenLie::Fixed(usize::MAX), LenLie::Fixed(usize::MAX / 2 + 1), LenLie::Flicker] {
+                    let real_len = if c == 0 { len.max(1) } else { line };
+                    let run = |_ctx: &mut Ctx| {
+                        let (mut a, _g) = build::<Tok>(c, r, &key_of);
+                        let items = toks(real_len, 30);
+                        let _ = guarded(|| insert_with(&mut a, axis, push, idx, Sup(SupIter::new(items, lie, true))));
+                        (Some(a), vec![])
+                    };
+                    enumerate_faults(ctx, &FaultOp { opn, desc: format!("{}(idx={}, real len={}, len() lies {:?}) on {}x{}", opn, idx, real_len, lie, c, r), run: &run, kinds: &[Kind::Next, Kind::NextBack] });
+                    ctx.count("lying_iterators", 1);
+                }
+            }
+        }
+    }
+}
+
+fn c11_clone_family(ctx: &mut Ctx, shape: (usize, usize)) {
+    let (c, r) = shape;
+    // constructors
+    let run = |_ctx: &mut Ctx| {
+        let x = guarded(|| TooDee::<Tok>::new(c, r));
+        (x.ok(), vec![])
+    };
+    enumerate_faults(ctx, &FaultOp { opn: "new", desc: format!("new({},{})", c, r), run: &run, kinds: &[Kind::Default] });
+    let run = |_ctx: &mut Ctx| {
+        let seed = Tok::fresh(5);
+        let x = guarded(move || TooDee::init(c, r, seed));
+        (x.ok(), vec![])
+    };
+    enumerate_faults(ctx, &FaultOp { opn: "init", desc: format!("init({},{})", c, r), run: &run, kinds: &[Kind::Clone, Kind::Drop] });
+    // clone: both the source and (if it exists) the clone must be fine; survivor = source
+    let run = |ctx: &mut Ctx| {
+        let (a, _g) = build::<Tok>(c, r, &key_of);
+        let x = guarded(|| a.clone());
+        if let Ok(b) = x {
+            if validate(ctx, "clone", "the clone", &b, &HashSet::new()) {
+                exercise(ctx, "clone", "the clone", b);
+            }
+        }
+        (Some(a), vec![])
+    };
+    enumerate_faults(ctx, &FaultOp { opn: "clone", desc: format!("clone() of {}x{}", c, r), run: &run, kinds: &[Kind::Clone] });
+    // fill on owned, overwriting elements whose Drop may panic
+    let run = |_ctx: &mut Ctx| {
+        let (mut a, _g) = build::<Tok>(c, r, &key_of);
+        let v = Tok::fresh(9);
+        let _ = guarded(|| a.fill(v));
+        (Some(a), vec![])
+    };
+    enumerate_faults(ctx, &FaultOp { opn: "fill", desc: format!("fill on owned {}x{}", c, r), run: &run, kinds: &[Kind::Clone, Kind::Drop] });
+    // clone_from_slice / clone_from_toodee on owned
+    let run = |_ctx: &mut Ctx| {
+        let (mut a, _g) = build::<Tok>(c, r, &key_of);
+        let src = toks(c * r, 40);
+        let _ = guarded(|| a.clone_from_slice(&src));
+        (Some(a), vec![])
+    };
+    enumerate_faults(ctx, &FaultOp { opn: "clone_from_slice", desc: format!("clone_from_slice on owned {}x{}", c, r), run: &run, kinds: &[Kind::Clone, Kind::Drop] });
+    let run = |_ctx: &mut Ctx| {
+        let (mut a, _g) = build::<Tok>(c, r, &key_of);
+        let (src, _) = build::<Tok>(c, r, &key_of);
+        let _ = guarded(|| a.clone_from_toodee(&src));
+        (Some(a), vec![])
+    };
+    enumerate_faults(ctx, &FaultOp { opn: "clone_from_toodee", desc: format!("clone_from_toodee on owned {}x{}", c, r), run: &run, kinds: &[Kind::Clone, Kind::Drop] });
+    // on a view of a larger parent: fill, clone_from_slice, clone_from_toodee; From<view>
+    let (pc, pr) = (c + 2, r + 1);
+    for which in 0..4 {
+        let opn = ["fill", "clone_from_slice", "clone_from_toodee", "From<TooDeeView>"][which];
+        let run = |ctx: &mut Ctx| {
+            let (mut p, _g) = build::<Tok>(pc, pr, &key_of);
+            let win = ((1, 0), (1 + c, r));
+            match which {
+                0 => {
+                    let v = Tok::fresh(9);
+                    let _ = guarded(|| p.view_mut(win.0, win.1).fill(v));
+                }
+                1 => {
+                    let src = toks(c * r, 40);
+                    let _ = guarded(|| p.view_mut(win.0, win.1).clone_from_slice(&src));
+                }
+                2 => {
+                    let (src, _) = build::<Tok>(c + 1, r + 1, &key_of);
+                    let sv = src.view((1, 1), (1 + c, 1 + r));
+                    let _ = guarded(|| p.view_mut(win.0, win.1).clone_from_toodee(&sv));
+                }
+                _ => {
+                    let x = guarded(|| TooDee::from(p.view(win.0, win.1)));
+                    if let Ok(b) = x {
+                        if validate(ctx, opn, "the copy", &b, &HashSet::new()) {
+                            exercise(ctx, opn, "the copy", b);
+                        }
+                    }
+                }
+            }
+            (Some(p), vec![])
+        };
+        enumerate_faults(ctx, &FaultOp { opn, desc: format!("{} on view {}x{} of {}x{}", opn, c, r, pc, pr), run: &run, kinds: &[Kind::Clone, Kind::Drop] });
+    }
+    // clear / drop with a panicking element Drop
+    let run = |_ctx: &mut Ctx| {
+        let (mut a, _g) = build::<Tok>(c, r, &key_of);
+        let _ = guarded(|| a.clear());
+        (Some(a), vec![])
+    };
+    enumerate_faults(ctx, &FaultOp { opn: "clear", desc: format!("clear on {}x{}", c, r), run: &run, kinds: &[Kind::Drop] });
+    let run = |_ctx: &mut Ctx| {
+        let (a, _g) = build::<Tok>(c, r, &key_of);
+        let _ = guarded(move || drop(a));
+        (None, vec![])
+    };
+    enumerate_faults(ctx, &FaultOp { opn: "drop", desc: format!("drop of {}x{}", c, r), run: &run, kinds: &[Kind::Drop] });
+}
+
+fn c11_drains(ctx: &mut Ctx, shape: (usize, usize), axis: Axis) {
+    let (c, r) = shape;
+    let dim = if axis == Axis::Row { r } else { c };
+    let line = if axis == Axis::Row { c } else { r };
+    for idx in 0..dim {
+        for front in 0..=line.min(2) {
+            for back in 0..=(line - front).min(2) {
+                let run = |_ctx: &mut Ctx| {
+                    let (mut a, _g) = build::<Tok>(c, r, &key_of);
+                    let mut held = vec![];
+                    let h = &mut held;
+                    let _ = guarded(|| {
+                        if axis == Axis::Row {
+                            let mut d = a.remove_row(idx);
+                            for _ in 0..front {
+                                h.extend(d.next());
+                            }
+                            for _ in 0..back {
+                                h.extend(d.next_back());
+                            }
+                        } else {
+                            let mut d = a.remove_col(idx);
+                            for _ in 0..front {
+                                h.extend(d.next());
+                            }
+                            for _ in 0..back {
+                                h.extend(d.next_back());
+                            }
+                        }
+                    });
+                    (Some(a), held)
+                };
+                let opn = if axis == Axis::Row { "remove_row" } else { "remove_col" };
+                enumerate_faults(ctx, &FaultOp { opn, desc: format!("{}({}) on {}x{} taking {} front {} back then dropping the drain", opn, idx, c, r, front, back), run: &run, kinds: &[Kind::Drop] });
+            }
+        }
+    }
+}
+
+fn c11_sorts(ctx: &mut Ctx, shape: (usize, usize)) {
+    let (c, r) = shape;
+    if c == 0 {
+        return;
+    }
+    for var in ROW_SORTS.iter().chain(COL_SORTS.iter()) {
+        let nlines = if var.by_row() { r } else { c };
+        for idx in 0..nlines {
+            for desc in [false, true] {
+                let op = Op::Sort(*var, idx, desc);
+                // owned and interior view
+                for on_view in [false, true] {
+                    let run = |_ctx: &mut Ctx| {
+                        if on_view {
+                            let (mut p, _g) = build::<Tok>(c + 2, r + 2, &key_of);
+                            let _ = guarded(|| {
+                                let mut v = p.view_mut((1, 1), (1 + c, 1 + r));
+                                apply_real(&mut v, &op, &mut VecDeque::new());
+                            });
+                            (Some(p), vec![])
+                        } else {
+                            let (mut a, _g) = build::<Tok>(c, r, &key_of);
+                            let _ = guarded(|| {
+                                apply_real(&mut a, &op, &mut VecDeque::new());
+                            });
+                            (Some(a), vec![])
+                        }
+                    };
+                    enumerate_faults(ctx, &FaultOp { opn: op.kind(), desc: format!("{:?} on {} {}x{}", op, if on_view { "view" } else { "owned" }, c, r), run: &run, kinds: &[Kind::Cmp, Kind::Key] });
+                }
+            }
+        }
+    }
+}
+
+pub fn run_c11(ctx: &mut Ctx) {
+    let n = nsel(ctx, 2, 2, 3, 4, 5);
+    for shape in shapes(n) {
+        for axis in [Axis::Row, Axis::Col] {
+            if ctx.case(|| format!("C11 insert axis={:?} shape={}x{}", axis, shape.0, shape.1)) {
+                c11_insert(ctx, shape, axis);
+            }
+            if ctx.case(|| format!("C11 drains axis={:?} shape={}x{}", axis, shape.0, shape.1)) {
+                c11_drains(ctx, shape, axis);
+            }
+            if ctx.done() {
+                return;
+            }
+        }
+        if ctx.case(|| format!("C11 clone-family shape={}x{}", shape.0, shape.1)) {
+            c11_clone_family(ctx, shape);
+        }
+        if ctx.case(|| format!("C11 sorts shape={}x{}", shape.0, shape.1)) {
+            c11_sorts(ctx, shape);
+        }
+        if ctx.done() {
+            return;
+        }
+    }
+}
+
+// ================================================================================================
+// C12
+
+#[derive(Clone, Copy, Debug, Hash, PartialEq, Eq)]
+enum Leak {
+    DrainRow,
+    PopRow,
+    DrainCol,
+    PopCol,
+    Rows,
+    RowsMut,
+    Col,
+    ColMut,
+    Cells,
+    CellsMut,
+    View,
+    ViewMut,
+    ViewMutRowsMut,
+    IntoIter,
+}
+const LEAKS: [Leak; 14] = [Leak::DrainRow, Leak::PopRow, Leak::DrainCol, Leak::PopCol, Leak::Rows, Leak::RowsMut, Leak::Col, Leak::ColMut, Leak::Cells, Leak::CellsMut, Leak::View, Leak::ViewMut, Leak::ViewMutRowsMut, Leak::IntoIter];
+
+fn take_then_forget<I: DoubleEndedIterator>(mut it: I, front: usize, back: usize, sink: &mut dyn FnMut(I::Item)) {
+    for _ in 0..front {
+        if let Some(x) = it.next() {
+            sink(x)
+        }
+    }
+    for _ in 0..back {
+        if let Some(x) = it.next_back() {
+            sink(x)
+        }
+    }
+    std::mem::forget(it);
+}
+
+fn c12_case<T: Elem + Clone + Ord>(ctx: &mut Ctx, shape: (usize, usize), lk: Leak) {
+    let (c, r) = shape;
+    let idxs: Vec<usize> = match lk {
+        Leak::DrainRow => (0..r).collect(),
+        Leak::DrainCol | Leak::Col | Leak::ColMut => (0..c).collect(),
+        _ => vec![0],
+    };
+    let n_items = match lk {
+        Leak::DrainRow | Leak::PopRow => c,
+        Leak::DrainCol | Leak::PopCol | Leak::Col | Leak::ColMut | Leak::Rows | Leak::RowsMut | Leak::ViewMutRowsMut => r,
+        Leak::Cells | Leak::CellsMut | Leak::IntoIter => c * r,
+        _ => 0,
+    };
+    for &idx in &idxs {
+        for front in 0..=n_items.min(3) {
+            for back in 0..=(n_items - front).min(2) {
+                ledger_reset();
+                kv_reset();
+                fault_reset();
+                let (mut a, g) = build::<T>(c, r, &key_of);
+                let before: HashSet<u64> = g.uids().into_iter().collect();
+                let mut held: Vec<T> = vec![];
+                let what = format!("{:?}(idx={}) on {}x{} leaked after {} front / {} back ({})", lk, idx, c, r, front, back, T::NAME);
+                let mut consumed: Option<TooDee<T>> = None;
+                let res = guarded(|| {
+                    match lk {
+                        Leak::DrainRow => take_then_forget(a.remove_row(idx), front, back, &mut |x| held.push(x)),
+                        Leak::PopRow => {
+                            if let Some(d) = a.pop_row() {
+                                take_then_forget(d, front, back, &mut |x| held.push(x))
+                            }
+                        }
+                        Leak::DrainCol => take_then_forget(a.remove_col(idx), front, back, &mut |x| held.push(x)),
+                        Leak::PopCol => {
+                            if let Some(d) = a.pop_col() {
+                                take_then_forget(d, front, back, &mut |x| held.push(x))
+                            }
+                        }
+                        Leak::Rows => take_then_forget(a.rows(), front, back, &mut |_| {}),
+                        Leak::RowsMut => take_then_forget(a.rows_mut(), front, back, &mut |_| {}),
+                        Leak::Col => take_then_forget(a.col(idx), front, back, &mut |_| {}),
+                        Leak::ColMut => take_then_forget(a.col_mut(idx), front, back, &mut |_| {}),
+                        Leak::Cells => take_then_forget(a.cells(), front, back, &mut |_| {}),
+                        Leak::CellsMut => take_then_forget(a.cells_mut(), front, back, &mut |_| {}),
+                        Leak::View => std::mem::forget(a.view((0, 0), (c, r))),
+                        Leak::ViewMut => std::mem::forget(a.view_mut((0, 0), (c, r))),
+                        Leak::ViewMutRowsMut => {
+                            let mut v = a.view_mut((0, 0), (c, r));
+                            take_then_forget(v.rows_mut(), front, back, &mut |_| {});
+                            std::mem::forget(v);
+                        }
+                        Leak::IntoIter => {
+                            let b = std::mem::take(&mut a);
+                            take_then_forget(b.into_iter(), front, back, &mut |x| held.push(x));
+                        }
+                    }
+                });
+                let _ = &mut consumed;
+                ctx.count("calls", 1);
+                ctx.count("leaks_injected", 1);
+                if let Err(m) = res {
+                    ctx.violation("leak", "valid-call-panicked", format!("{}: {}", what, m));
+                    std::mem::forget(a);
+                    continue;
+                }
+                let held_ids: HashSet<u64> = held.iter().map(|t| t.uid()).collect();
+                let mut ok = validate(ctx, "leak", &what, &a, &held_ids);
+                if ok && !T::IS_ZST {
+                    // no element may have appeared from nowhere
+                    for e in a.data() {
+                        if !before.contains(&e.uid()) {
+                            ctx.violation("leak", "survivor:foreign-element", format!("{}: id {}", what, e.uid()));
+                            ok = false;
+                        }
+                    }
+                }
+                // borrow-only values (iterators, views) must leave the array untouched
+                if ok && matches!(lk, Leak::Rows | Leak::RowsMut | Leak::Col | Leak::ColMut | Leak::Cells | Leak::CellsMut | Leak::View | Leak::ViewMut | Leak::ViewMutRowsMut) {
+                    let mut g2 = g.clone();
+                    ok &= check_shape(ctx, "leak", &a, &mut g2);
+                }
+                if T::OWNS && !T::IS_ZST {
+                    for h in &held {
+                        if !is_live(h.uid()) {
+                            ctx.violation("leak", "ledger:held-not-live", format!("{}: id {}", what, h.uid()));
+                            ok = false;
+                        }
+                    }
+                }
+                drop(held);
+                ok &= check_double_drops(ctx, "leak");
+                if ok {
+                    ctx.seen("survivor_sizes", (lk, shape, a.size()));
+                    exercise(ctx, "leak", &what, a);
+                    ctx.nontrivial(("C12", lk, shape, idx, front, back, T::NAME));
+                } else {
+                    std::mem::forget(a);
+                }
+                ledger_counts(ctx);
+            }
+        }
+    }
+}
+
+pub fn run_c12(ctx: &mut Ctx) {
+    let n = nsel(ctx, 2, 3, 3, 4, 6);
+    for shape in shapes(n) {
+        if shape.0 == 0 {
+            continue;
+        }
+        for lk in LEAKS {
+            for ty in 0..2 {
+                if ctx.case(|| format!("C12 leak={:?} shape={}x{} elem={}", lk, shape.0, shape.1, ["Tok", "Zst"][ty])) {
+                    if ty == 0 {
+                        c12_case::<Tok>(ctx, shape, lk)
+                    } else {
+                        c12_case::<Zst>(ctx, shape, lk)
+                    }
+                }
+                if ctx.done() {
+                    return;
+                }
+            }
+        }
+    }
+}
